@@ -244,3 +244,159 @@ def c06_4(ctx):
             check(not calls, 'reported-without-execution-id',
                   {'signature': sig + 'no-id'})
     yield Case('do_run_action', case, needed=['ran', 'refused-redelivery'])
+
+
+# ---------------------------------------------------------------------------
+# C06.5  the two copies of a message are processed by two engine processes
+# at the same time (overlapping transactions)
+# ---------------------------------------------------------------------------
+WITH_ITEMS_2 = """
+version: '2.0'
+wf:
+  tasks:
+    a:
+      with-items: i in [0, 1]
+      action: std.echo output=<% $.i %>
+      on-success: b
+    b:
+      action: std.noop
+"""
+
+
+def _c06_5_case(shape, text, which, preemptions):
+    def case():
+        from vt.world import World
+        from vt import actors as A
+        from mistral_lib import actions as ml
+        from mistral import context
+        from mistral import exceptions as exc
+        w = World([text], multi_process=True)
+        with w:
+            wid = w.start('wf')
+            # FIFO until the n-th message of the wanted kind is at the head
+            nth = choice('nth', [1, 2])
+            seen = {'n': 0, 'ev': None}
+
+            def stop(world):
+                ev = world.events[0]
+                if ev is seen['ev']:
+                    return True
+                if ev.kind in ('rpc', 'job') and \
+                        ev.label.split(' ')[0] == which:
+                    seen['n'] += 1
+                    if seen['n'] == nth:
+                        seen['ev'] = ev
+                        return True
+                return False
+            w.run(result_of=lambda ev: ml.Result(data='ok'), stop_when=stop)
+            assume(seen['ev'] is not None and w.events and
+                   w.events[0] is seen['ev'])
+            ev = w.take(w.events[0])
+            reach('duplicate-in-flight')
+            acts = A.Actors(max_steps=800, preemptions=preemptions)
+            A.attach(w.db, acts)
+            ctx0 = context.ctx()
+
+            def proc():
+                context.set_ctx(ev.ctx or ctx0)
+                w._deliver(ev, None)
+            acts.spawn('E1', proc)
+            acts.spawn('E2', proc)
+            acts.run()
+            w.db.on_op = None
+            w.db.on_block = None
+            note('schedule', acts.schedule_str())
+            sig = 'C06.5:%s:%s:' % (shape, which)
+            reach('raced')
+            if acts.used_preemptions:
+                reach('interleaved')
+            w.run(result_of=lambda ev_: ml.Result(data='ok'))
+            info = {'schedule': acts.schedule_str(), 'message': ev.label,
+                    'summary': w.summary()}
+            bad = [(m, repr(e)[:200]) for m, e in w.errors
+                   if not isinstance(e, (exc.MistralException,
+                                         exc.MistralError, ValueError))]
+            check(not bad, 'duplicate-failed-with-undeclared-error',
+                  dict(info, signature=sig + 'error', errors=bad))
+            check(w.wf_ex(wid)['state'] == 'SUCCESS',
+                  'run-did-not-end-as-with-one-delivery',
+                  dict(info, signature=sig + 'final-state',
+                       state=w.wf_ex(wid)['state']))
+            names = [t['name'] for t in w.tasks(wid)]
+            check(len(names) == len(set(names)), 'task-created-twice',
+                  dict(info, signature=sig + 'task-twice', names=names))
+            for t in w.tasks(wid):
+                idx = [(a['runtime_context'] or {}).get('index', 0)
+                       for a in w.actions(t['id'])]
+                check(len(idx) == len(set(idx)), 'action-dispatched-twice',
+                      dict(info, signature=sig + 'action-twice',
+                           task=t['name'], n=len(idx)))
+                acc = [(a['runtime_context'] or {}).get('index', 0)
+                       for a in w.actions(t['id']) if a['accepted']]
+                check(len(acc) == len(set(acc)), 'two-results-accepted',
+                      dict(info, signature=sig + 'two-accepted',
+                           task=t['name']))
+                check(t['state'] == 'SUCCESS', 'task-not-finished',
+                      dict(info, signature=sig + 'task-state',
+                           task=t['name'], state=t['state']))
+            # no item left running behind a finished task
+            running = [a for a in w.rows('ActionExecution')
+                       if a['state'] == 'RUNNING']
+            check(not running, 'action-still-running-after-the-run',
+                  dict(info, signature=sig + 'left-running',
+                       n=len(running)))
+    return case
+
+
+@obligation(
+    'C06.5', engine='symx-actors+world(minidb)',
+    functions=['mistral.engine.default_engine:DefaultEngine.start_task',
+               'mistral.engine.default_engine:DefaultEngine.on_action_complete',
+               'mistral.engine.task_handler:run_task',
+               'mistral.engine.task_handler:_on_action_complete',
+               'mistral.engine.task_handler:_scheduled_on_action_complete',
+               'mistral.engine.tasks:Task.set_state',
+               'mistral.engine.tasks:RegularTask._run_new',
+               'mistral.engine.tasks:WithItemsTask._schedule_actions',
+               'mistral.engine.actions:RegularAction.complete',
+               'mistral.db.v2.sqlalchemy.api:update_task_execution_state'],
+    bounds={'quick': 'a two-task chain and a with-items task (2 items): the '
+                     'first or second start_task / on_action_complete '
+                     'message is handed to TWO engine processes whose DB '
+                     'statements interleave with <= 2 context switches '
+                     '(READ COMMITTED overlay, row locks, identity map per '
+                     'session)',
+            'thorough': '<= 3 context switches; also the scheduled '
+                        'on_action_complete job of with-items'},
+    stubs=['minidb', 'QueueRPC', 'FakeScheduler', 'FakeExecutor'],
+    outside='three or more concurrent copies; two different messages '
+            'duplicated',
+    timeout=(400, 2400))
+def c06_5(ctx):
+    """with the two copies of one message processed concurrently the run
+    still ends SUCCESS with every task finished once, no action dispatched
+    twice, one accepted result per item, and only declared errors"""
+    boot()
+    k = ctx.pick(2, 3)
+    kinds = ['start_task', 'on_action_complete']
+    for shape, text in (('chain2', shapes.CHAIN2 if hasattr(shapes, 'CHAIN2')
+                         else _CHAIN2), ('with_items', WITH_ITEMS_2)):
+        for which in kinds + (['_scheduled_on_action_complete']
+                              if shape == 'with_items' and not ctx.quick
+                              else []):
+            yield Case('%s/%s' % (shape, which),
+                       _c06_5_case(shape, text, which, k),
+                       needed=['duplicate-in-flight', 'raced', 'interleaved'],
+                       shard_depth=8, procs=8, max_paths=1000000)
+
+
+_CHAIN2 = """
+version: '2.0'
+wf:
+  tasks:
+    a:
+      action: std.noop
+      on-success: b
+    b:
+      action: std.noop
+"""
